@@ -326,8 +326,21 @@ func (a *idxAnalysis) spaceOf(x ast.Expr) string {
 			}
 		}
 		rs := a.callResults(t)
-		if len(rs) == 1 {
+		if len(rs) == 1 && rs[0] != "" {
 			return rs[0]
+		}
+		// a zero-argument accessor on a variable: a stable space of its own (pure accessor assumed)
+		if sel, ok := t.Fun.(*ast.SelectorExpr); ok && len(t.Args) == 0 && isCollType(a.info.TypeOf(t)) {
+			if id, ok := sel.X.(*ast.Ident); ok {
+				if obj := a.info.ObjectOf(id); obj != nil {
+					if _, isPkg := obj.(*types.PkgName); !isPkg {
+						if k, ok := a.params[obj]; ok {
+							return fmt.Sprintf("acc(P%d.%s)", k, sel.Sel.Name)
+						}
+						return "acc(" + a.localName(obj) + "." + sel.Sel.Name + ")"
+					}
+				}
+			}
 		}
 		return ""
 	case *ast.SliceExpr:
